@@ -165,7 +165,9 @@ pub fn expr_depth(e: &Expr) -> usize {
 /// * `column-relation-unquoted` — `Column::relation` travels as its UNQUOTED text and is re-parsed;
 /// * `literal-metadata-dropped` — `Expr::Literal(_, Some(metadata))` is encoded without the metadata;
 /// * `alias-metadata-dropped` — `Alias::metadata` is encoded but not decoded;
-/// * `cast-metadata-dropped` — the metadata of a CAST / TRY_CAST target field is encoded but not decoded.
+/// * `cast-metadata-dropped` — the metadata of a CAST / TRY_CAST target field is encoded but not decoded;
+/// * `window-frame-causal-flag-not-encoded` — `WindowFrame::causal` is not encoded; the decoder recomputes it with
+///   `new_bounds`, while frames whose bounds were rewritten by type coercion keep a stale flag.
 fn lossy_with(e: &Expr, mask: u8) -> (Expr, Vec<&'static str>) {
     use datafusion::common::tree_node::Transformed;
     use datafusion::common::{Column, TableReference};
@@ -202,6 +204,17 @@ fn lossy_with(e: &Expr, mask: u8) -> (Expr, Vec<&'static str>) {
                     let f = c.field.as_ref().clone().with_metadata(Default::default());
                     Transformed::yes(Expr::TryCast(TryCast::new_from_field(c.expr, std::sync::Arc::new(f))))
                 }
+                Expr::WindowFunction(mut wf) if mask & 16 != 0 => {
+                    let f = &wf.params.window_frame;
+                    let re = datafusion::logical_expr::WindowFrame::new_bounds(f.units, f.start_bound.clone(), f.end_bound.clone());
+                    if &re != f {
+                        tags.push("window-frame-causal-flag-not-encoded");
+                        wf.params.window_frame = re;
+                        Transformed::yes(Expr::WindowFunction(wf))
+                    } else {
+                        Transformed::no(Expr::WindowFunction(wf))
+                    }
+                }
                 o => Transformed::no(o),
             })
         })
@@ -214,13 +227,13 @@ fn lossy_with(e: &Expr, mask: u8) -> (Expr, Vec<&'static str>) {
 
 /// all recorded lossy spots applied
 fn lossy(e: &Expr) -> (Expr, Vec<&'static str>) {
-    lossy_with(e, 15)
+    lossy_with(e, 31)
 }
 
 /// Is `back` what `e` becomes under some subset of the recorded lossy spots? (Subsets, so that repairing one
 /// of them does not turn the cases that also show another one into unexplained differences.)
 fn explain_by_lossy(e: &Expr, back: &Expr) -> Option<Vec<&'static str>> {
-    let mut masks: Vec<u8> = (1..16).collect();
+    let mut masks: Vec<u8> = (1..32).collect();
     masks.sort_by_key(|m| m.count_ones());
     for m in masks {
         let (l, tags) = lossy_with(e, m);
